@@ -104,7 +104,7 @@ type ContractFile struct {
 }
 type GhostField struct{ Type, Field, Sort string }
 
-var reClause = regexp.MustCompile(`^(requires|ensures|modifies|decreases|trusted|nilable|hint|assume|preserves|unreachable-returns|opaque)(\[[A-Z0-9,]+\])?\s*(.*)$`)
+var reClause = regexp.MustCompile(`^(requires|ensures|modifies|decreases|trusted|nilable|hint|assume|preserves|unreachable-returns|opaque|exit)(\[[A-Z0-9,]+\])?\s*(.*)$`)
 var reLoop = regexp.MustCompile(`^loop\s+(\d+)\s+(invariant|decreases|modifies|hint)(\[[A-Z0-9,]+\])?\s+(.*)$`)
 var reGhostVar = regexp.MustCompile(`^ghost\s+var\s+([A-Za-z_][A-Za-z0-9_]*)\s+(int|bool)\s*=\s*(.*)$`)
 var reAtCall = regexp.MustCompile(`^at\s+call\s+([A-Za-z0-9_./()*]+)#(\d+)\s+ghost\s+([A-Za-z_][A-Za-z0-9_]*)\s*:=\s*(.*)$`)
